@@ -1243,6 +1243,18 @@ let mpoly_of_toks (toks : string list) : (Field.coq_F * (Datatypes.nat * Datatyp
     go 0 []
   end
 
+(* canonical text of a sparse polynomial: like terms merged, zero coefficients dropped, sorted *)
+let mpoly_canon (p : (Field.coq_F * (Datatypes.nat * Datatypes.nat) list) list) : string list =
+  let tbl = Hashtbl.create 16 in
+  List.iter (fun (c, t) ->
+      let mon = String.concat "*" (List.map (fun (v, e) -> Printf.sprintf "%d^%d" (int_of_nat v) (int_of_nat e))
+                                     (List.sort compare (List.map (fun (v, e) -> (v, e)) t))) in
+      let cur = try Hashtbl.find tbl mon with Not_found -> Z.zero in
+      Hashtbl.replace tbl mon (Z.erem (Z.add cur (ofz c)) !modulus)) p;
+  let l = Hashtbl.fold (fun m c acc -> if Z.equal c Z.zero then acc else (m, Z.to_string c) :: acc) tbl [] in
+  let l = List.sort compare l in
+  if l = [] then [ "zero" ] else List.map (fun (m, c) -> c ^ ":" ^ m) l
+
 let run_pc_pst13 c =
   let fo = fo () in
   if not (has c "betas") then () else begin
@@ -1251,20 +1263,26 @@ let run_pc_pst13 c =
     let betas = if get c "betas" = [ "-" ] then [] else fs_of c "betas" in
     let n = int1 c "n" in
     let polys = Array.init n (fun i -> mpoly_of_toks (get c (Printf.sprintf "cpoly.%d" i))) in
-    let has_rng = str1 c "commit_rng" = "some" in
-    let res = Array.make n None and ok = ref true and cls = ref "ok" in
+    let tape = ref (if has c "ctape" then fs_of c "ctape" else []) in
+    let with_rng = str1 c "commit_rng" = "some" in
+    let res = Array.make n None and ok = ref true and cls = ref "ok" and draws = ref 0 in
     Array.iteri (fun i p ->
         if !ok then begin
           let hiding = opt_nat (str1 c (Printf.sprintf "hiding.%d" i)) in
-          let blind = if has c (Printf.sprintf "blind.%d" i) then mpoly_of_toks (get c (Printf.sprintf "blind.%d" i)) else [] in
-          match PST13H.ph_commit1 fo nvn sn betas p hiding has_rng blind with
-          | Result.Ok (cm, st) -> res.(i) <- Some (cm, st)
+          match PST13H.ph_commit1 fo nvn sn betas p hiding (if with_rng then Some !tape else None) with
+          | Result.Ok ((cm, st), k) ->
+            let k = int_of_nat k in
+            res.(i) <- Some (cm, st); draws := !draws + k;
+            tape := List.filteri (fun j _ -> j >= k) !tape
           | r -> ok := false; cls := class_of r
         end) polys;
     obs1 "commit" "S" !cls;
     if !ok then begin
+      obs1 "commit_draws" "N" (string_of_int !draws);
       let cs = Array.map (function Some x -> x | None -> assert false) res in
-      Array.iteri (fun i (cm, _) -> obs (Printf.sprintf "c.%d" i) "L:pbasis" [ gv_tok cm ]) cs;
+      Array.iteri (fun i (cm, st) ->
+          obs (Printf.sprintf "c.%d" i) "L:pbasis" [ gv_tok cm ];
+          obs (Printf.sprintf "blind.%d" i) "S" (match st with Some b -> mpoly_canon b | None -> [ "zero" ])) cs;
       let npts = int1 c "npts" in
       let pts = Array.init npts (fun j -> fs_of c (Printf.sprintf "pt.%d" j)) in
       let nops = int1 c "nops" in
@@ -1484,18 +1502,6 @@ let run_c13 c =
 (* ---------------- C15: PST13 parameters and division ---------------- *)
 let ints_of_nats l = List.map int_of_nat l
 let exps_str (v : int list) = String.concat "." (List.map string_of_int v)
-(* canonical text of a sparse polynomial: like terms merged, zero coefficients dropped, sorted *)
-let mpoly_canon (p : (Field.coq_F * (Datatypes.nat * Datatypes.nat) list) list) : string list =
-  let tbl = Hashtbl.create 16 in
-  List.iter (fun (c, t) ->
-      let mon = String.concat "*" (List.map (fun (v, e) -> Printf.sprintf "%d^%d" (int_of_nat v) (int_of_nat e))
-                                     (List.sort compare (List.map (fun (v, e) -> (v, e)) t))) in
-      let cur = try Hashtbl.find tbl mon with Not_found -> Z.zero in
-      Hashtbl.replace tbl mon (Z.erem (Z.add cur (ofz c)) !modulus)) p;
-  let l = Hashtbl.fold (fun m c acc -> if Z.equal c Z.zero then acc else (m, Z.to_string c) :: acc) tbl [] in
-  let l = List.sort compare l in
-  if l = [] then [ "zero" ] else List.map (fun (m, c) -> c ^ ":" ^ m) l
-
 let run_c15 c =
   let fo = fo () in
   let fuel = nat_of_int 100000 in
